@@ -23,7 +23,9 @@ CONSTANTS Universe,        \* set of entry records [id, kind, ext, inside, depth
           ExtLists,        \* set of extension lists; <<"default">> stands for an omitted key
           SourceDirs,      \* spelling of source_dir: "rel" (src), "dotrel" (./src), "abs", "updown" (../<project>/src),
                            \* "hidden" (the source directory is called .src)
-          Invocations      \* <<cwd, spelling>> with cwd in {"cfgdir","parent","root"}, spelling in {"bare","rel","abs"}
+          Invocations,     \* <<cwd, spelling>> with cwd in {"cfgdir","parent","root"}, spelling in {"bare","rel","abs"}
+          TmpKinds         \* where TMPDIR is: "same" file system as the sources, or "otherfs" (every rename fails: an edit
+                           \* run then changes nothing at all, inside or outside the source directory)
 
 EffectiveExts(x) == IF x = <<"default">> THEN {"rs"} ELSE {x[i] : i \in 1..Len(x)}
 
@@ -37,17 +39,20 @@ LockLocation == "cfgdir/Breadlog.lock"         \* never the current directory
    directory is still the directory of the path that was given *)
 ValidInvocation(inv) == inv[2] = "bare" => inv[1] = "cfgdir"
 
-VARIABLES layout, exts, sd, inv
-vars == <<layout, exts, sd, inv>>
+VARIABLES layout, exts, sd, inv, tmp
+vars == <<layout, exts, sd, inv, tmp>>
 
 Init == /\ layout \in {L \in SUBSET Universe : Cardinality(L) <= MaxEntries}
         /\ exts \in ExtLists
         /\ sd \in SourceDirs
         /\ inv \in {i \in Invocations : ValidInvocation(i)}
+        /\ tmp \in TmpKinds
 Next == UNCHANGED vars
 Spec == Init /\ [][Next]_vars
 
 Expected == {e.id : e \in {x \in layout : InScope(x, EffectiveExts(exts))}}
+(* what an edit run may modify: exactly the in-scope files, and nothing when the scratch files cannot be moved into place *)
+ExpectedModified == IF tmp = "otherfs" THEN {} ELSE Expected
 
 (* consistency of the definition with the prose *)
 NeverLinksOrDirs == \A e \in layout : e.kind # "file" => e.id \notin Expected
@@ -55,6 +60,6 @@ NeverOutside == \A e \in layout : ~e.inside => e.id \notin Expected
 CaseSensitive == \A e \in layout : (e.ext = "RS" /\ "RS" \notin EffectiveExts(exts)) => e.id \notin Expected
 ExactExtension == \A e \in layout : (e.ext \in {"rsx", "bak", "tmp", "rs~", ""} /\ e.ext \notin EffectiveExts(exts)) => e.id \notin Expected
 
-Dump == PrintT("SCOPE|" \o ToJson([layout |-> {e.id : e \in layout}, exts |-> exts, sd |-> sd, inv |-> inv,
-                                     expected |-> Expected, lock |-> LockLocation]))
+Dump == PrintT("SCOPE|" \o ToJson([layout |-> {e.id : e \in layout}, exts |-> exts, sd |-> sd, inv |-> inv, tmp |-> tmp,
+                                     expected |-> Expected, modified |-> ExpectedModified, lock |-> LockLocation]))
 =============================================================================
